@@ -53,6 +53,54 @@ CLAIMED = {
             "recorded from perturbed runs of the real binary in the starved-slot / tiny-I/O-block regime the "
             "model explores; hangs, crashes and wrong results of those runs are violations.",
             NOTE_MC, "DESIGN.md 2.1-2.2, 3 (C11)"),
+    "C02": ("other", "specification-calibrated strict inspector on every stream the binary writes (BZ2.tla via tools/bzfmt.py) + libbz2",
+            "Every compressed stream of the sessions is parsed by an independent strict inspector that is calibrated "
+            "against spec/BZ2.tla in the same run (TLC computes bytes, CRCs and plaintext of sample files itself); the "
+            "clauses of C02 are evaluated literally on the recovered fields, incl. completeness of unused tables and "
+            "the selector bound; libbz2 decodes the stream to the input.",
+            "Sampled inputs; the inspector and libbz2 are trusted after calibration.", "DESIGN.md 3 (C02)"),
+    "C05": ("other", "TLC-generated single-defect and valid files (spec/BZ2.tla, simulation mode) replayed into the binary + inspector-judged mutations",
+            "BZ2.tla draws files with exactly one defect from the property's list (and valid ones); they and field-aware / "
+            "byte-level mutations of real streams are decoded by the real binary under several configurations.  Rule: exit 0 "
+            "implies the reference says valid and the bytes equal the reference decoding.",
+            "Not exhaustive (seeded sampling).  Reference = BZ2.tla verdicts / the inspector calibrated against BZ2.tla.",
+            "DESIGN.md 3 (C05)"),
+    "C06": ("other", "TLC-generated valid files varying every legal degree of freedom (spec/BZ2.tla) + libbz2 output + legal extremes, replayed into the binary",
+            "Valid files from BZ2.tla (2-6 tables incl. malformed unused ones, 20-bit codes, delta detours, arbitrary and "
+            "surplus selectors, randomised blocks, any index, bit offsets, multi-level concatenations, trailing data), libbz2 "
+            "output at levels 1-9, the repository's specimens and extremes built in the block-sorted domain (18001 groups, "
+            "32767 selectors, randomised > 617 bytes) must be accepted with exactly the specified plaintext; only the two "
+            "documented exceptions may be rejected.",
+            "Not exhaustive.  Expected bytes from the calibrated serialiser/inspector, cross-checked with libbz2.", "DESIGN.md 3 (C06)"),
+    "C07": ("fault_enumeration", "enumeration of truncation points / spec-derived defects / inspector-judged corruptions replayed into the binary",
+            "Every truncation point of a set of valid files (exhaustive per file), BZ2.tla single-defect files, corruptions "
+            "judged invalid by the calibrated inspector, empty input and wrong magics: exit status 1 with a diagnostic, no "
+            "signal, no hang; as FILE operand no output file is left.",
+            "Exhaustive only over the truncation points of the listed files.", "DESIGN.md 3 (C07)"),
+    "C13": ("model_checking", TECH_MC + " with allocation accounting and VmHWM",
+            "TLC: live encoders / decoders / output buffers / input buffers never exceed W / W / TotOut / TotIn and no "
+            "unord record becomes unreachable (NoLeak).  Traces: at every event live encoders/decoders <= held work units "
+            "and live output buffers <= held slots, peaks within totals and nothing live at Uninit.  Peak RSS (VmHWM) of a "
+            "4x larger input (concatenated bombs, incompressible data, many tiny streams) stays within 1.25x + 16 MiB of "
+            "the saturating base input and within 1.5x + 32 MiB of the linear bound built from the logged totals.",
+            NOTE_MC + "  RSS legs are measurements with stated tolerances.", "DESIGN.md 3 (C13)"),
+    "C14": ("model_checking", "TLC check of every scanner-table entry against the KMP definition (Scan.tla) + TLC-generated stimuli replayed through scan()",
+            "All 96 + 12544 entries of src/scantab.h are compared by TLC with the definition of the KMP automaton of the "
+            "48-bit pattern (the inductive step of the automaton invariant: all inputs).  TLC-generated bit streams "
+            "(pattern at every bit offset, near misses, two occurrences, cut by the block end, starting offsets, buffered "
+            "bits, skips) are replayed through the real scan() and judged by the contract.",
+            "Exhaustive over the tables; the routine is covered on the finite stimulus family of tools/inproc.py.",
+            "DESIGN.md 3 (C14)"),
+    "C15": ("fault_enumeration", "exhaustive single-bit flips of every stored CRC field (located by the calibrated inspector) replayed into the binary",
+            "For multi-block, multi-stream files (BZ2.tla-generated and real encoder output) every bit of every stored block "
+            "and stream CRC is flipped in turn; the binary must exit 1 for worker counts 1, 2, 4 and small input blocks.",
+            "Exhaustive per listed file.", "DESIGN.md 3 (C15)"),
+    "C20": ("other", "TLC-evaluated optimality oracle (Prefix.tla: package-merge proved equal to brute force) on tables recovered from real outputs and from assign_codes()",
+            "Prefix.tla: TLC proves package-merge = minimum over all complete bounded-length codes on a small domain; the same "
+            "operator judges every used table recovered from what the binary writes (cost equals the optimum for the table's own "
+            "maximal length, complete, <= 20 bits) and the lengths assign_codes() produces for frequency vectors of every "
+            "alphabet size, incl. vectors that force the 20-bit limit.",
+            "Sampled inputs; per-table counts from the inspector's own decoding.", "DESIGN.md 3 (C20)"),
 }
 
 NOT_YET = "check not built yet in this round; planned in DESIGN.md section 3"
